@@ -7,6 +7,7 @@
   `doneCount encs c` = number of leading PTDP encodings that fit completely into the first c bytes.
 -/
 import Acra.Lemmas.Chapter7Asm
+import Acra.Props.C10.Stream
 namespace Acra.Props.C10
 open Acra.Py Acra.Model.Chapter7 Acra.Lemmas.Chapter7 Acra.Gen.Chapter7
 open Acra.Spec.Ch7 (offset startsAux)
@@ -109,5 +110,51 @@ theorem decap_encap (pkts : List Bytes) (L sid : Nat) (hL : 0 < L) (hL2 : L ≤ 
   simpa using this
 
 example : normal [[1, 2, 3], []] = [([1, 2, 3], false), ([], false)] := rfl
+
+/-! ### review additions: the decapsulator on the Spec's frames (end to end), `pktDone` against the Spec, witnesses -/
+
+/-- `pktDone` against the Spec's stream: the first `pktDone pkts c` packets are exactly those whose complete
+    encoding lies within the first `c` bytes of `Spec.Ch7.stream` -/
+theorem pktDone_spec_stream (pkts : List Bytes) (c : Nat) :
+    (Spec.Ch7.stream (pkts.take (pktDone pkts c))).length ≤ c ∧
+    (pktDone pkts c < pkts.length → c < (Spec.Ch7.stream (pkts.take (pktDone pkts c + 1))).length) := by
+  have := pktDone_spec pkts c
+  rwa [stream_eq_spec, stream_eq_spec] at this
+
+/-- end to end, with no reference to the model's encoder: the library's decapsulator (the documented consumer loop),
+    fed the Spec's frames for ANY packet sequence and ANY frame length 1..2047, raises nothing and returns — after
+    reassembly — exactly the packets whose last byte lies in those frames: each once, byte-identical, in the
+    original order, none flagged low-latency -/
+theorem decap_spec_frames (pkts : List Bytes) (L sid : Nat) (hL : 0 < L) (hL2 : L ≤ 2047) (hs : sid < 16) :
+    (decap L (Spec.Ch7.frames L sid pkts)).2 = none ∧
+    reassemble (decap L (Spec.Ch7.frames L sid pkts)).1.ptdps =
+      normal (pkts.take (pktDone pkts (((Spec.Ch7.stream pkts).length - 1) / L * L))) := by
+  obtain ⟨cur, out, h, _⟩ := encap_invariant pkts L sid hL
+  have hpack := (decap_encap_ptdps pkts L sid hL hL2 hs cur out h).1
+  have hspec := frames_eq_spec pkts L sid hL hL2 hs cur out h
+  have hlen := (payload_stream_spec pkts L sid hL cur out h).2.2.2
+  have hw : out.map wire = Spec.Ch7.frames L sid pkts := by
+    have e : out.map (fun f => (PTFR.pack f).2) = (out.map wire).map .ok := by
+      rw [List.map_map]; exact List.map_congr_left hpack
+    rw [e] at hspec
+    exact (List.map_inj_right (fun a b hab => Except.ok.inj hab)).1 hspec
+  have := decap_encap pkts L sid hL hL2 hs cur out h
+  rwa [hw, hlen] at this
+
+/-- joint witness for the hypotheses of `decap_encap_ptdps` / `decap_encap` (`h`, 0 < L ≤ 2047, sid < 16), with a
+    non-trivial result: packets `[1,2,3]`, `[4,5]`, L = 4 — 16 of the 17 stream bytes are in yielded frames, so the
+    first packet is returned and the second (its last byte still pending) is not -/
+example : (datapktsToPtfr (normal [[1, 2, 3], [4, 5]]) 4 1).isOk = true ∧ (0 : Nat) < 4 ∧ 4 ≤ 2047 ∧ (1 : Nat) < 16 ∧
+    pktDone [[1, 2, 3], [4, 5]] 16 = 1 ∧ ((Spec.Ch7.stream [[1, 2, 3], [4, 5]]).length - 1) / 4 * 4 = 16 := by
+  decide +kernel
+example : reassemble (decap 4 (Spec.Ch7.frames 4 1 [[1, 2, 3], [4, 5]])).1.ptdps = [([1, 2, 3], false)] := by
+  have h := (decap_spec_frames [[1, 2, 3], [4, 5]] 4 1 (by decide) (by decide) (by decide)).2
+  rw [h]
+  have e : pktDone [[1, 2, 3], [4, 5]] (((Spec.Ch7.stream [[1, 2, 3], [4, 5]]).length - 1) / 4 * 4) = 1 := by
+    decide +kernel
+  rw [e]; rfl
+/-- a 5000-byte packet (FIRST / MIDDLE / LAST fragments) followed by a short one, L = 100: the long packet comes back -/
+example : pktDone [List.replicate 5000 7, List.replicate 100 1] (((Spec.Ch7.stream [List.replicate 5000 7, List.replicate 100 1]).length - 1) / 100 * 100) = 1 := by
+  decide +kernel
 
 end Acra.Props.C10
